@@ -18,7 +18,9 @@ def archives(tier):
     ents = [E(b"m", "dir")] + [E(b"m/f%02d" % i, "file", content=treegen.content_pattern("f%d" % i, 1000 + 211 * i)) for i in range(14)] + \
            [E(b"m/z", "file", content=bytes(9000)), E(b"m/l", "slink", target=b"f00"), E(b"m/h", "link", target=b"m/f01")]
     a2 = tarmk.archive(ents, "gnu")
-    out = [("a1-small", a1), ("a2-40k", a2)]
+    # a4: many members of odd sizes, > 2 x 256 KiB in total: record padding (written as "append n zero bytes") falls behind the first and second buffer recycling
+    a4 = tarmk.archive([E(b"o", "dir")] + [E(b"o/f%02d" % i, "file", content=treegen.content_pattern("o%d" % i, 40000 + 1111 * i + (i % 7))) for i in range(14)], "gnu")
+    out = [("a1-small", a1), ("a2-40k", a2), ("a4-odd-sizes-700k", a4)]
     # a3: incompressible payload so that the compressed stream crosses 131072 (file istream buffer) and the plain one 262144 (xfrm buffer)
     deltas = (-1, 0, 1) if tier == "quick" else (-4, -3, -2, -1, 0, 1, 2, 3, 4)
     for mult in ((1,) if tier == "quick" else (1, 2)):
@@ -239,7 +241,7 @@ def main():
         # oracle B: sqfs2tar -c X expanded by the reference decoder == plain sqfs2tar output
         nb = 0
         imgs = []
-        for name in ("a1-small", "a2-40k", arcs[-1][0]):
+        for name in ("a1-small", "a2-40k", "a4-odd-sizes-700k", arcs[-1][0]):
             d = tempfile.mkdtemp(dir=sd)
             img = os.path.join(d, "i.sqfs")
             run_tool([T["tar2sqfs"], "-q", "-c", "gzip", "-b", "4096", img], stdin=REF[name][0], timeout=120)
